@@ -2,7 +2,7 @@
 From Coq Require Import List ZArith NArith Bool.
 Import ListNotations.
 From GS Require Import Num EventLoop Kernel Sim.
-From GS.Proofs Require Import Aux SimP SimP3 KernelP.
+From GS.Proofs Require Import Aux SimP SimP3 SimP4 KernelP.
 
 Section C07.
 Context {F : Type} (A : ArithOps F) {PS : Type} (cfg : scfg F)
@@ -65,6 +65,24 @@ Theorem C07_fire_removes_exactly (h : sstate F PS) n name id :
   forall e, In e (filter (fun e => negb (pend_id n name id e)) (s_pending h)) <-> In e (s_pending h) /\ e <> (n, name, id).
 Proof. apply fire_removes_exactly. Qed.
 
+(** identifiers are handed out once each: whatever the protocols do while an event is executed
+    (or during initialisation), the timer events requested carry consecutive brand-new
+    identifiers starting at the counter, which advances past them; no other request carries an
+    identifier.  So every accepted timer has its own event, and since every event is executed at
+    most once (C02), no timer can fire twice. *)
+Theorem C07_identifiers_never_reused (h : sstate F PS) now p :
+  exists n, s_nextid (fst (fst (sim_exec A cfg react h now p))) = (s_nextid h + N.of_nat n)%N /\
+            timer_ids (snd (fst (sim_exec A cfg react h now p))) = ids_from (s_nextid h) n /\
+            NoDup (ids_from (s_nextid h) n).
+Proof.
+  destruct (sim_exec_fresh A cfg react h now p) as (n & E & T). exists n. split; [exact E|]. split; [exact T|apply ids_from_NoDup].
+Qed.
+
+Theorem C07_identifiers_never_reused_init (h : sstate F PS) :
+  exists n, s_nextid (fst (fst (sim_init A cfg react h))) = (s_nextid h + N.of_nat n)%N /\
+            timer_ids (snd (fst (sim_init A cfg react h))) = ids_from (s_nextid h) n.
+Proof. destruct (sim_init_fresh A cfg react h) as (n & E & T). exists n. auto. Qed.
+
 End C07.
 
 (** "exactly once": each accepted timer has its own event (fresh identifier), and by C02 every
@@ -86,3 +104,5 @@ Print Assumptions C07_identifiers_unique.
 Print Assumptions C07_identifiers_unique_callbacks.
 Print Assumptions C07_fire_removes_exactly.
 Print Assumptions C07_each_event_once.
+Print Assumptions C07_identifiers_never_reused.
+Print Assumptions C07_identifiers_never_reused_init.
